@@ -135,6 +135,17 @@ def cel_nil_fields(res):
         struct("Lbl", [fld("Label", ["//govalid:cel=string(value) != 'x'"], stringer), fld("N", ["//govalid:cel=string(this.Label) != 'y' || value == 0"], i)], [case([])]),
         struct("Req", [fld("P", ["//govalid:required"], ptr_inner), fld("L", ["//govalid:required"], stringer), fld("U", ["//govalid:required"], url_t)],
                [case([]), case([{"path": "P", "vk": "nilable", "isnil": False}, {"path": "U", "vk": "nilable", "isnil": False}])]),
+        # pointers to struct literals that contain marked fields, further struct literals (by value and by pointer) and marked
+        # pointers: whatever the generator does with the inner markers (ignored today: finding D37), a nil pointer anywhere on the
+        # way must not be dereferenced
+        struct("Order", [fld("ID", ["//govalid:required"], basic("string")),
+                         fld("Shipping", [], T("*struct {\n\t\t//govalid:minlength=2\n\t\tCity string\n\t\tGeo  struct {\n\t\t\t//govalid:gt=0\n\t\t\tZone int\n\t\t}\n\t\tAlt *struct {\n\t\t\t//govalid:required\n\t\t\tK string\n\t\t\tDeep *struct {\n\t\t\t\t//govalid:required\n\t\t\t\tZ string\n\t\t\t}\n\t\t}\n\t}", "TPointer", "nilable")),
+                         fld("Billing", ["//govalid:required"], T("*struct {\n\t\t//govalid:email\n\t\tMail string\n\t\tBox  struct {\n\t\t\t//govalid:maxitems=1\n\t\t\tTags []string\n\t\t}\n\t}", "TPointer", "nilable")),
+                         fld("Lines", ["//govalid:minitems=1"], T("[]*struct {\n\t\t//govalid:required\n\t\tSKU string\n\t\tOpt struct {\n\t\t\t//govalid:gt=0\n\t\t\tN int\n\t\t}\n\t}", "TSlice", "coll"))],
+               [case([]), case([{"path": "ID", "vk": "string", "str": "6f"}]),
+                case([{"path": "ID", "vk": "string", "str": "6f"}, {"path": "Shipping", "vk": "nilable", "isnil": False}]),
+                case([{"path": "Billing", "vk": "nilable", "isnil": False}, {"path": "Lines", "vk": "coll", "isnil": False, "len": 2}]),
+                case([{"path": "Shipping", "vk": "nilable", "isnil": False}, {"path": "Billing", "vk": "nilable", "isnil": False}, {"path": "Lines", "vk": "coll", "isnil": True, "len": 0}])]),
     ]
     gr = genfam.GenRun(res, {"scenarios": [scenario("c17nil", structs, aux=["type Inner struct{ X int }"], imports=["fmt", "net/url"])]}, "c17nil")
     if not gr.generate() or gr.gen_status != 0:
